@@ -313,7 +313,10 @@ def c04(ctx):
                     rule="Apalache: for ALL pcr < 2^33*300 and ALL reserved-bit values the integer reading of the PCR layout is inverse (Apa_C04!PcrInv). MC: Dec(Enc(v)) = v, ISO bit positions, and 'decoding ignores reserved/marker/prefix bits' on 99 bases (single bits, 2^k-1, mixed) x ext values (9 quick / all 299 thorough). "
                          "B3: InsertPCR/ExtractPCR/InsertPTS/gots.ExtractTime/pes.ExtractTime on single-bit and 2^k-1 patterns, every ext for sampled bases, limits +-2, random values, "
                          "prior buffer contents 0x00/0xFF/random with two trailing guard bytes, random byte strings and their single reserved/marker-bit flips; each written byte string and decoded value "
-                         "validated by TLC against Timecodes (module Wide for 42-bit arithmetic). End-to-end clauses are validated in C03 (SetPCR/PCR, SetOPCR/OPCR) and C11 (PTS/DTS in PES headers). "
+                         "validated by TLC against Timecodes (module Wide for 42-bit arithmetic). End to end: SetPCR/SetOPCR on an adaptation field (PCR only, OPCR only, both in either order; slot holding filler, random bytes or a non-canonical encoding of the same value; "
+                         "splice countdown / private data switched on or off afterwards) - the six bytes at the ISO position must be the canonical encoding and both getter families read the value back; "
+                         "a PES header with PTS and DTS written by InsertPTS for every stream_id with the optional header, read by NewPESHeader with DTS asked first or PTS asked first; Create(WithPES(v)) "
+                         "read back through PESHeader/NewPESHeader and both ExtractTime (edge values 0, 2^33-1, 2^33-2, 2^32, ...). More histories of the same clauses are validated in C03 and C11. "
                          "class = (operation, top bit of the value)",
                     trace_module="Trace_C04", sigfn=V.default_sig,
                     assumptions=["TLC/SANY and the JVM", "module Wide (checked against TLC integers by MC_Wide)",
